@@ -35,6 +35,7 @@ Step(e, s, ev) ==
   CASE ev.e = "SB" -> IF ev.i = s.begun[ev.p] + 1 THEN Ok([s EXCEPT !.begun[ev.p] = ev.i]) ELSE No(s, "rig: submissions out of order")
     [] ev.e = "SE" -> Ok(s)
     [] ev.e = "W" -> Drain(e, [s EXCEPT !.pend = @ \o ev.b])
+    [] ev.e = "Shutdown" -> Ok([s EXCEPT !.faulted = TRUE])     \* the application shut the stream down: later submissions may be dropped, never reordered or duplicated
     [] ev.e = "WFault" -> Ok([s EXCEPT !.faulted = TRUE])       \* the connection accepted part of a frame and timed out
     [] ev.e = "End" ->
          IF Has(ev, "races") /\ ev.races > 0 THEN No(s, "data race reported by the race detector")
